@@ -74,8 +74,12 @@ pub mod bytes {
             crate::substr::force(1);
         }
         let p = pred(which, n1, n2, n3);
+        // size_hint must bracket the number of matches still to come (the
+        // property does not fix the exact values)
+        let remaining = crate::oracle::count(&h[s..e], &p);
         let hint_ok = |lo: usize, hi: Option<usize>| {
-            assert!(lo == 0 && hi == Some(e - s), "oracle: size_hint is not (0, Some(window length))");
+            assert!(lo <= remaining, "oracle: size_hint lower bound above the matches still to come");
+            assert!(hi.map_or(true, |x| x >= remaining), "oracle: size_hint upper bound below the matches still to come");
         };
         match which {
             1 => {
@@ -174,7 +178,9 @@ pub mod bytes {
                 let f = One::new(n1);
                 let mut it = f.verif_iter_with_window(h, s, e);
                 let (lo, hi) = it.size_hint();
-                assert!(lo == 0 && hi == Some(e - s), "oracle: size_hint is not (0, Some(window length))");
+                let remaining = crate::oracle::count(&h[s..e], &p);
+                assert!(lo <= remaining, "oracle: size_hint lower bound above the matches still to come");
+                assert!(hi.map_or(true, |x| x >= remaining), "oracle: size_hint upper bound below the matches still to come");
                 let r = if back { it.next_back() } else { it.next() };
                 check_step(h, s, e, back, r, it.verif_window(), p);
             }
@@ -182,7 +188,9 @@ pub mod bytes {
                 let f = Two::new(n1, n2);
                 let mut it = f.verif_iter_with_window(h, s, e);
                 let (lo, hi) = it.size_hint();
-                assert!(lo == 0 && hi == Some(e - s), "oracle: size_hint is not (0, Some(window length))");
+                let remaining = crate::oracle::count(&h[s..e], &p);
+                assert!(lo <= remaining, "oracle: size_hint lower bound above the matches still to come");
+                assert!(hi.map_or(true, |x| x >= remaining), "oracle: size_hint upper bound below the matches still to come");
                 let r = if back { it.next_back() } else { it.next() };
                 check_step(h, s, e, back, r, it.verif_window(), p);
             }
@@ -190,7 +198,9 @@ pub mod bytes {
                 let f = Three::new(n1, n2, n3);
                 let mut it = f.verif_iter_with_window(h, s, e);
                 let (lo, hi) = it.size_hint();
-                assert!(lo == 0 && hi == Some(e - s), "oracle: size_hint is not (0, Some(window length))");
+                let remaining = crate::oracle::count(&h[s..e], &p);
+                assert!(lo <= remaining, "oracle: size_hint lower bound above the matches still to come");
+                assert!(hi.map_or(true, |x| x >= remaining), "oracle: size_hint upper bound below the matches still to come");
                 let r = if back { it.next_back() } else { it.next() };
                 check_step(h, s, e, back, r, it.verif_window(), p);
             }
@@ -341,18 +351,18 @@ pub mod bytes {
 
 // dispatcher-backed iterators: concrete lengths (function-pointer fan-out)
 #[cfg(any(vcfg_x86std, vcfg_x86none, vcfg_x86alloc, vcfg_x86avx2, vcfg_x86rel))]
-inst!(it_top1_step_10, [props=C06 xprops=C14+C05 tier=thorough cfg=x86std t=1500 role=memchr-iter-step uw=@MEMCHR], 3, bytes::top_step::<10>(1, true));
+inst!(it_top1_step_10, [props=C06 xprops=C14+C05 tier=thorough cfg=x86std t=1500 role=memchr-iter-step uw=oracle::count:12;@MEMCHR], 3, bytes::top_step::<10>(1, true));
 #[cfg(any(vcfg_x86std, vcfg_x86none, vcfg_x86alloc, vcfg_x86avx2, vcfg_x86rel))]
-inst!(it_top2_step_18, [props=C06 xprops=C05+C14 tier=thorough cfg=x86std t=1500 role=memchr2-iter-step uw=@MEMCHR], 3, bytes::top_step::<18>(2, true));
+inst!(it_top2_step_18, [props=C06 xprops=C05+C14 tier=thorough cfg=x86std t=1500 role=memchr2-iter-step uw=oracle::count:20;@MEMCHR], 3, bytes::top_step::<18>(2, true));
 #[cfg(any(vcfg_x86std, vcfg_x86none, vcfg_x86alloc, vcfg_x86avx2, vcfg_x86rel))]
-inst!(it_top3_step_18, [props=C06 xprops=C05+C14 tier=thorough cfg=x86std t=1500 role=memchr3-iter-step uw=@MEMCHR], 3, bytes::top_step::<18>(3, true));
+inst!(it_top3_step_18, [props=C06 xprops=C05+C14 tier=thorough cfg=x86std t=1500 role=memchr3-iter-step uw=oracle::count:20;@MEMCHR], 3, bytes::top_step::<18>(3, true));
 #[cfg(any(vcfg_x86std, vcfg_x86none, vcfg_x86alloc, vcfg_x86avx2, vcfg_x86rel))]
-inst!(it_top1_step_40, [props=C06 xprops=C05+C14 tier=thorough cfg=x86std t=3600 role=memchr-iter-step uw=@MEMCHR], 3, bytes::top_step::<40>(1, true));
-inst!(it_top_step_generic_24, [props=C06 xprops=C05+C14 tier=quick cfg=generic t=1500 role=memchr-iter-step uw=@MEMCHR], 3, bytes_generic::top_step::<24>(3));
+inst!(it_top1_step_40, [props=C06 xprops=C05+C14 tier=thorough cfg=x86std t=3600 role=memchr-iter-step uw=oracle::count:42;@MEMCHR], 3, bytes::top_step::<40>(1, true));
+inst!(it_top_step_generic_24, [props=C06 xprops=C05+C14 tier=quick cfg=generic t=1500 role=memchr-iter-step uw=oracle::count:26;@MEMCHR], 3, bytes_generic::top_step::<24>(3));
 inst!(it_top_base, [props=C06 xprops=C14 tier=quick cfg=x86std+generic t=600 role=iter-base-case], 3, bytes::top_base::<12>());
-inst!(it_swar1_step, [props=C06+C14 xprops=C05 tier=quick cfg=x86std t=1500 role=swar-iter-step uw=One::find_raw.0:4;One::rfind_raw.0:4;byte_by_byte:18], 18, bytes::swar_step::<31>(1, 24));
-inst!(it_swar3_step, [props=C06 xprops=C05+C14 tier=quick cfg=x86std t=1500 role=swar-iter-step uw=Three::find_raw.0:4;Three::rfind_raw.0:4;byte_by_byte:10], 10, bytes::swar_step::<31>(3, 24));
-inst!(it_swar2_step, [props=C06 xprops=C05+C14 tier=thorough cfg=x86std t=1500 role=swar-iter-step uw=Two::find_raw.0:4;Two::rfind_raw.0:4;byte_by_byte:10], 10, bytes::swar_step::<31>(2, 24));
+inst!(it_swar1_step, [props=C06+C14 xprops=C05 tier=quick cfg=x86std t=1500 role=swar-iter-step uw=oracle::count:26;One::find_raw.0:4;One::rfind_raw.0:4;byte_by_byte:18], 18, bytes::swar_step::<31>(1, 24));
+inst!(it_swar3_step, [props=C06 xprops=C05+C14 tier=quick cfg=x86std t=1500 role=swar-iter-step uw=oracle::count:26;Three::find_raw.0:4;Three::rfind_raw.0:4;byte_by_byte:10], 10, bytes::swar_step::<31>(3, 24));
+inst!(it_swar2_step, [props=C06 xprops=C05+C14 tier=thorough cfg=x86std t=1500 role=swar-iter-step uw=oracle::count:26;Two::find_raw.0:4;Two::rfind_raw.0:4;byte_by_byte:10], 10, bytes::swar_step::<31>(2, 24));
 inst!(it_seq_top_8x3, [props=C06 xprops=C14 tier=thorough cfg=x86std t=1500 role=iter-call-sequences uw=@MEMCHR;sequence:10;oracle::count:10], 3, bytes::sequence::<8, 3>(0));
 inst!(it_seq_top_10x4, [props=C06 xprops=C14 tier=thorough cfg=x86std t=5400 role=iter-call-sequences uw=@MEMCHR;sequence:12;oracle::count:12], 3, bytes::sequence::<10, 4>(0));
 inst!(it_seq_swar_8x3, [props=C06 xprops=C14 tier=thorough cfg=x86std t=1500 role=iter-call-sequences uw=@MEMCHR;sequence:10;oracle::count:10], 3, bytes::sequence::<8, 3>(1));
@@ -403,7 +413,7 @@ pub mod bytes_generic {
 // quick-tier sizes (measured: the dispatcher's function-pointer fan-out makes
 // every call through the top-level functions ~7x as expensive as a direct call)
 #[cfg(any(vcfg_x86std, vcfg_x86none, vcfg_x86alloc, vcfg_x86avx2, vcfg_x86rel))]
-inst!(it_top1_step_6, [props=C06 xprops=C14+C05 tier=thorough cfg=x86std t=1500 role=memchr-iter-step uw=@MEMCHR], 3, bytes::top_step::<6>(1, true));
+inst!(it_top1_step_6, [props=C06 xprops=C14+C05 tier=thorough cfg=x86std t=1500 role=memchr-iter-step uw=oracle::count:8;@MEMCHR], 3, bytes::top_step::<6>(1, true));
 inst!(it_seq_swar_6x2, [props=C06 xprops=C14 tier=quick cfg=x86std t=1500 role=iter-call-sequences uw=@MEMCHR;sequence:8;oracle::count:8], 3, bytes::sequence::<6, 2>(1));
 inst!(it_seq_top_generic_6x3, [props=C06 xprops=C14 tier=quick cfg=generic t=1500 role=iter-call-sequences uw=@MEMCHR;sequence:10;oracle::count:10], 3, bytes::sequence::<6, 3>(0));
 
